@@ -91,7 +91,7 @@ class Client:
         self.__capabilities: dict[str, str] = {}
         self.__respcode_expr = re.compile(rb"(OK|NO|BYE)\s*(.+)?")
         self.__error_expr = re.compile(
-            rb'(?:\(([^)]*)\))?\s*("(?:[^"\\]|\\.)*"|\{\d+\+?\})?\s*$'
+            rb'(?:\(((?:[^)"]|"(?:[^"\\]|\\.)*")*)\))?\s*("(?:[^"\\]|\\.)*"|\{\d+\+?\})?\s*$'
         )
         self.__size_expr = re.compile(rb"\{(\d+)\+?\}")
         self.__active_expr = re.compile(rb"ACTIVE", re.IGNORECASE)
